@@ -70,6 +70,11 @@ def c17_size_math(pi, n):
     return o
 
 
+def c17_const(text):
+    o, _ = outcome(lambda: TexSoup(text))
+    return o
+
+
 def c17_free(n):
     s = SX.fresh(n)
     o, _ = outcome(lambda: TexSoup(s))
